@@ -83,6 +83,12 @@ def scenarios(family: str) -> list[tuple[cw.Scenario, list[str]]]:
            setup=[("client", "c0", [("single", "i1")]), ("poll", "r1", 1), ("status", "i1", "running", "r1")],
            actors=[("kill_reroute", "r1", "i1")]), ["r1"]),
     ]
+    # the REAL worker loop of the persistent process runner (one invocation per poll, run, poll again) as the
+    # consumer: i1 RUNNING elsewhere blocks i2 (same key), i3 is queued behind i2 - and the same with a crash
+    out.append((S("pp-worker-loop-cc", family, mode="keys", reroute_on_cc=True, keys={"i1": "A", "i2": "A", "i3": "B"},
+                  setup=[("client", "c0", [("single", "i1"), ("single", "i2"), ("single", "i3")]), ("poll", "r0", 1),
+                         ("status", "i1", "running", "r0")],
+                  actors=[("ppworker", "r1", 6), ("finisher", "r0", "i1")]), ["r1"]))
     for scn, _ in out:
         scn.settle = True
     return out
@@ -150,6 +156,9 @@ def run(ctx: Ctx) -> None:
     bad = [r for r in results if r["outcome"] not in ("done",)]
     if bad:
         raise tlc.MachineryError(f"execution did not finish: {bad[0]['outcome']} {bad[0]['scn']['name']} {bad[0]['how']}")
+    errs = [r for r in results if r["errors"] and r["how"].get("mode") == "crash-ref"]
+    if errs:
+        raise tlc.MachineryError(f"actor raised in the fault-free run of {errs[0]['scn']['name']}: {errs[0]['errors']}")
     for r in results:
         ctx.distinct.add(cc.trace_key(r["trace"]))
     sample = next((r for r in results if r["how"].get("mode") == "crash"), results[0])
